@@ -38,9 +38,16 @@ pub fn check_schema(schema_files: &[String], config_text: &str, scalars: &[(Stri
     let mk = |sig: String, detail: String| Violation { sig, detail, replay: replay.clone() };
     let mut all = TsDoc::default();
     for f in schema_files {
-        all.defs.extend(refparse::parse_ts(f).ok()?.defs);
+        match refparse::parse_ts(f) {
+            Ok(d) => all.defs.extend(d.defs),
+            Err(e) => {
+                if std::env::var("NQV_DEBUG_SKIP").is_ok() { eprintln!("SKIP refparse: {}:{} {} in {:?}", e.line, e.col, e.msg, f.lines().nth(e.line).unwrap_or("")); }
+                return None;
+            }
+        }
     }
     if !validate_type_system(&all).is_empty() {
+        if std::env::var("NQV_DEBUG_SKIP").is_ok() { eprintln!("SKIP ref-validator: {:?}", validate_type_system(&all).iter().map(|i| i.detail.clone()).collect::<Vec<_>>()); }
         return None;
     }
     let merged = merge_extensions(&all);
@@ -52,10 +59,12 @@ pub fn check_schema(schema_files: &[String], config_text: &str, scalars: &[(Stri
         out.push(mk(format!("C10|panic|{}|{}", p.site(), p.msg_class()), format!("{stage}: {}", p.msg)));
     }
     if !r.schema_diags.is_empty() {
+        if std::env::var("NQV_DEBUG_SKIP").is_ok() { eprintln!("SKIP diags: {:?}", r.schema_diags.iter().map(|d| d.message.clone()).collect::<Vec<_>>()); }
         return None; // C05's business
     }
     let Some(o) = &r.outputs else { return Some(out) };
     if !r.generate_errors.is_empty() {
+        if std::env::var("NQV_DEBUG_SKIP").is_ok() { eprintln!("SKIP generr: {:?}", r.generate_errors); }
         return None; // e.g. scalar without a configured type: a legitimate refusal
     }
     let joined = schema_files.join("\n");
@@ -409,13 +418,14 @@ pub fn gen_case(rng: &mut Rng) -> (Vec<String>, String, Vec<(String, String)>, b
     if rng.chance(1, 6) {
         scalars.push(("ID".into(), "string".into()));
     }
+    let mut shaped = if rng.coin() { split_extensions(&schema, rng) } else { schema };
+    crate::gen_schema::scalars_via_directive(&mut shaped, &mut scalars, SCALAR_TS, rng);
     let allow = rng.chance(2, 3);
     let mut cfg = GenConfig::basic();
     cfg.scalars = scalars.clone();
     cfg.allow_undefined_as_optional_input = Some(allow);
     cfg.schema_module_specifier = Some("@/schema".into());
     let config_text = cfg.render(&["./schema/*.graphql".to_string()], &["./ops/*.graphql".to_string()]);
-    let shaped = if rng.coin() { split_extensions(&schema, rng) } else { schema };
     let nfiles = rng.range(1, 2).min(shaped.defs.len().max(1));
     let mut files: Vec<TsDoc> = (0..nfiles).map(|_| TsDoc::default()).collect();
     for d in &shaped.defs {
